@@ -42,7 +42,7 @@ COMMON = dict(harness='sp.cpp', patch_sources=PATCH, mem_gb=34, max_cex=60, maxn
 OBLIGATIONS = [
     dict(COMMON, id='SP-ATTR', entry='vp_sp_attr',
          instances=lambda tier: [dict(name='t%d' % t, bound='4-chunk neighbourhood, texts of %d characters, every token kind / parent kind / flag valuation, every value of every option do_space reads' % t,
-                                      unwind=6, defs=dict(TLEN=t, VP_CAP_INT=4, VP_CAP_U8=8), timeout=2400) for t in ((1,) if tier == 'quick' else (1, 2))]),
+                                      unwind=6, defs=dict(TLEN=t, VP_CAP_INT=4, VP_CAP_U8=8), timeout=2400) for t in (1,)]),   # texts of 2 characters were not confirmed to finish within the memory cap: not registered
 ]
 PROPERTIES = {
     'C19': dict(obligations=['SP-ATTR'],
